@@ -59,8 +59,8 @@ def size_of(c):
 def run(ctx):
     ctx.static_and_proofs("secure")
     quick = ctx.tier == "quick"
-    args = ["-secure", "260" if quick else "4000", "-plans", "10" if quick else "120",
-            "-reg", "150" if quick else "2500", "-depth", "5"]
+    args = ["-secure", "260" if quick else "10000", "-plans", "10" if quick else "250",
+            "-reg", "150" if quick else "6000", "-chains", "90" if quick else "3000", "-depth", "5"]
     cases = ctx.harness("c17", args, timeout=1500)
     if cases is None:
         ctx.evidence(dict(evaluations=0, distinct_nontrivial=0, rule="harness did not run", samples=[]))
@@ -99,6 +99,8 @@ def run(ctx):
         c, r = lst[0]
         ctx.violation(dict(kind="c17-%s-%d" % (fam, code), what=CODES.get(code, "code %d" % code), where=classify(c, code),
                            case=c["id"], check_case=r, failing_cases=len(lst), other_cases=[x[0]["id"] for x in lst[1:12]],
+                           failing_constructor_pairs=fw.histogram(p for x in lst for p in (x[0]["dist"].get("pairs") or [])) if fam == "secure" else None,
+                           failing_types=[x[0]["input"].get("type") for x in lst[:12]] if fam == "secure" else None,
                            input=c["input"], observed=c["observed"], coq_case=c["coq"][:30000],
                            replay_cmd="VERIF_SEED=%s ./check C17 --tier %s   # case id %s" % (ctx.seed, ctx.tier, c["id"])),
                       tag="%s%d" % (fam, code))
@@ -141,5 +143,8 @@ def run(ctx):
         "the registry follows struct fields and pointers only: a secret-looking untagged field below a slice, map, array or interface "
         "is accepted by Register (modelled as is; reported as an observation, see DESIGN C17)",
         "HTML escaping, html/template and the JSON encoders are not modelled: rendered files are byte-searched",
+        "finding X5 (not covered by the theorem, outside sec_at): an exported secure-tagged field promoted through an embedded struct "
+        "whose type name is unexported is skipped by secureStruct (IsExported() of the embedded field is false) but serialised by both "
+        "JSON encoders; generated types have no embedded fields (reflect.StructOf)",
         "brunoga/deep MustCopy is the identity on tree values in the model; that the original is untouched is observed, not proved (C18 models locations)",
     ])
